@@ -23,7 +23,7 @@ from collections import defaultdict, deque
 # ---------------------------------------------------------------------------
 
 class Facts:
-    def __init__(self, path):
+    def __init__(self, path, inline=True):
         self.path = path
         self.bodies = {}
         self.adts = {}
@@ -63,6 +63,11 @@ class Facts:
                 elif k == "end":
                     self.nbodies_declared = r["bodies"]
         self._callers = None
+        self.unknown_fns = []
+        self.inlined = {}
+        if inline:
+            import inline as _inl
+            self.inlined = _inl.inline_unknown_helpers(self)
 
     # -- lookup helpers ----------------------------------------------------
     def find_bodies(self, regex):
@@ -655,6 +660,84 @@ def walk(t):
         yield from walk(s)
 
 
+def map_term(t, fn):
+    """Rebuild term t bottom-up, replacing every sub-term s by fn(s) when that
+    is not None (fn sees already rebuilt children)."""
+    k = t[0]
+    if k in ("field", "deref", "ref", "downcast", "discr"):
+        r = (k, map_term(t[1], fn)) + tuple(t[2:])
+    elif k == "un":
+        r = (k, t[1], map_term(t[2], fn)) + tuple(t[3:])
+    elif k == "idx":
+        r = (k, map_term(t[1], fn), map_term(t[2], fn)) + tuple(t[3:])
+    elif k == "bin":
+        r = (k, t[1], map_term(t[2], fn), map_term(t[3], fn)) + tuple(t[4:])
+    elif k == "cast":
+        r = (k, t[1], map_term(t[2], fn)) + tuple(t[3:])
+    elif k == "call":
+        r = (k, t[1], t[2], [map_term(a, fn) for a in t[3]]) + tuple(t[4:])
+    elif k in ("agg", "phi"):
+        r = (k, t[1], [map_term(a, fn) for a in t[2]]) + tuple(t[3:])
+    elif k == "repeat":
+        r = (k, map_term(t[1], fn)) + tuple(t[2:])
+    else:
+        r = t
+    n = fn(r)
+    return r if n is None else n
+
+
+def closures_created_in(F, b):
+    """[(block, closure body, capture operands)] for the closures b creates."""
+    out = []
+    for bi in sorted(b.reachable_blocks()):
+        for st in b.blocks[bi]["s"]:
+            if st[0] == "=" and st[2][0] == "agg" and st[2][1][0] in ("closure", "coroutine", "coroclosure"):
+                cb = F.bodies.get(st[2][1][1])
+                if cb is not None:
+                    out.append((bi, cb, st[2][2]))
+    return out
+
+
+def resolve_captures(F, b, term, parent=None, depth=0):
+    """Express a term of closure body b over its creator: every captured
+    upvar `(*env).k` is replaced by the (resolved) term the creator captured.
+    The closure's own parameters become ('carg', n) so that they cannot be
+    mistaken for the creator's parameters.  Non-closure bodies: identity."""
+    if b.kind not in ("Closure",) or not b.root or depth > 3:
+        return term
+    if parent is None:
+        parent = _creator_of(F, b)
+    if parent is None:
+        return term
+    pb, ops = parent
+
+    def fn(s):
+        if s[0] == "field" and strip(s[1]) == ("arg", 1) and isinstance(s[2], int) and s[2] < len(ops):
+            return resolve_captures(F, pb, pb.term_of_operand(ops[s[2]]), depth=depth + 1)
+        if s[0] == "arg" and s[1] >= 2:
+            return ("carg", s[1])
+        return None
+    return map_term(term, fn)
+
+
+def _creator_of(F, b):
+    cache = F.__dict__.setdefault("_creators", {})
+    if b.path in cache:
+        return cache[b.path]
+    res = None
+    for pp, pb in F.bodies.items():
+        if not (pp == b.root or b.path.startswith(pp + "::{closure")) or pb is b:
+            continue
+        for bi, cb, ops in closures_created_in(F, pb):
+            if cb is b:
+                res = (pb, ops)
+                break
+        if res:
+            break
+    cache[b.path] = res
+    return res
+
+
 def const_value(t):
     t = strip(t)
     if t[0] == "k" and isinstance(t[1], int):
@@ -683,6 +766,9 @@ RESULT_VARIANTS = {
     "core::ops::control_flow::ControlFlow": ["Continue", "Break"],
     "core::task::Poll": ["Ready", "Pending"],
     "core::task::poll::Poll": ["Ready", "Pending"],
+    "core::ops::Bound": ["Included", "Excluded", "Unbounded"],
+    "core::ops::range::Bound": ["Included", "Excluded", "Unbounded"],
+    "core::cmp::Ordering": None,  # discriminants -1/0/1: handled by the rules that need it
 }
 
 
